@@ -172,8 +172,10 @@ Lemma text_step_u st slice_start indent ts : stu st -> stu (text_step st slice_s
 Proof.
   intros Hst. destruct ts as [[[start end_] nonblank] term]. unfold text_step, stu in *.
   assert (Hnew : Forall phu (PHText slice_start end_ indent (role st) :: elements st)) by (constructor; [exact Logic.I | exact Hst]).
+  assert (Hnew0 : Forall phu (PHText start end_ 0 (role st) :: elements st)) by (constructor; [exact Logic.I | exact Hst]).
   destruct (negb (Nat.eqb start end_)).
-  - destruct (negb (is_line_start (role st)) || nonblank || match term with TLineFeed => true | _ => false end); cbn [elements]; assumption.
+  - destruct (negb (is_line_start (role st)) || nonblank || match term with TLineFeed => true | _ => false end); cbn [elements]; [|assumption].
+    destruct (is_line_start (role st) && negb nonblank); assumption.
   - destruct (is_line_start (role st) && match term with TPlaceableStart => true | _ => false end); cbn [elements]; assumption.
 Qed.
 
